@@ -87,6 +87,21 @@ TableClauses(t, C, tb) ==
      \cup (IF miss = {} THEN {} ELSE {<<"entry-missing", sn, "-", Cardinality(miss)>>})
      \cup dl
 
+\* independently of the shape of the observed tables: a named class constraint of a documented condition carries the
+\* labels of a pair (a, b) of samples for which it IS the documented condition (labels need not be unique)
+NameClauses(t, C, ts) ==
+  LET Bad(k) == LET c == t.cons[k] IN
+        c.named = 1 /\ \E m \in 1..Len(ts) :
+           /\ c.head = "IC_" \o FId(t) \o "_" \o ts[m].name
+           /\ LET tb == ts[m]  R == RowsOf(tb, C)  Cc == ColsOf(tb, C)  one == tb.layout = "row"
+                  nr == IF one THEN 1 ELSE Len(R)
+              IN ~\E a \in 1..nr : \E b \in 1..Len(Cc) :
+                     /\ c.args = (IF one THEN <<Lab(C.S[Cc[b]], b)>> ELSE <<Lab(C.S[R[a]], a), Lab(C.S[Cc[b]], b)>>)
+                     /\ NormForm(DE(c.e), c.sense)
+                          = NormForm(Cond(t.cls, C, tb, IF one THEN C.S[Cc[b]] ELSE C.S[R[a]], C.S[Cc[b]]), tb.sense)
+      badNames == {k \in 1..Len(t.cons) : Bad(k)}
+  IN IF badNames = {} THEN {} ELSE {<<"name-does-not-identify-the-pair-of-its-condition", "-", "-", Cardinality(badNames)>>}
+
 \* every class constraint sits in exactly one entry of exactly one table
 AllCells(t) == UNION { UNION {{<<m, a, b>> : b \in 1..Len(t.tables[m].ent[a])} : a \in 1..Len(t.tables[m].ent)} : m \in 1..Len(t.tables)}
 CoverClauses(t) ==
@@ -115,7 +130,7 @@ TabClauses(t) ==
        IN UNION {TableClauses(t, C, ts[k]) : k \in 1..Len(ts)}
           \cup {<<"table-unexpected", t.tables[k].name, "-", 1>> : k \in unexpected}
           \cup {<<"table-duplicate", n, "-", 1>> : n \in dup}
-          \cup un \cup dx
+          \cup un \cup dx \cup NameClauses(t, C, ts)
           \cup (IF \A k \in 1..Len(ts) : \A m \in ObsTab(t, ts[k].name) :
                      ShapeOK(t.tables[m], IF ts[k].layout = "row" THEN 1 ELSE Len(RowsOf(ts[k], C)), Len(C.S))
                 THEN CoverClauses(t) ELSE {})
